@@ -15,17 +15,48 @@ package scen
 // the output channel at the quiescent point before each delivery), the values
 // that came out of the SearchValue channel / GetValue, and the harness' own
 // validator (never the client's bookkeeping).
+//
+// Inputs drawn since wave 5 (each is part of "for every assignment of ...
+// records to responders and to local storage, every quorum"; none adds a rule
+// of its own except where said):
+//
+//   - the routing options of the call: Quorum(q), routing.Offline,
+//     routing.Expired in every combination, on all clients. The property makes
+//     no exception for any option: whatever the caller passes, only
+//     validator-approved values supplied to THIS search may come out. (A client
+//     that serves an Offline call from local storage alone supplies nothing
+//     from peers; the rules then only look at the local record.)
+//   - local storage holding a record that never was valid for the requested key
+//     (written straight to the datastore: garbage, a value that belongs to
+//     another key, another peer's public key under /pk/<id>, an empty value, a
+//     record filed under another key): rule yield-invalid-local, the same
+//     clause as yield-expired-local ("only yield values that the configured
+//     validator accepts ... supplied by local storage").
+//   - the requester's MaxRecordAge (far beyond the run, unset, disabled, 30
+//     minutes, 6 hours) and the time-received stamp of every record a responder
+//     serves (none, recent, older than the requester's maximum age, far in the
+//     future, unparsable). The stamp is the sender's bookkeeping; the property
+//     ranks supplied values by the validator alone, so best-known /
+//     valid-value-lost / not-found apply unchanged. A LOCAL record that may have
+//     outlived the requester's maximum age by the end of the search is no longer
+//     "supplied by local storage" for sure: it is then neither demanded nor
+//     held against the client (boundary instants stay unconstrained).
+//   - value-lazy-* (c04_lazy.go): a SearchValue consumer that reads only when
+//     the scheduler says so and pauses for virtual minutes between reads while
+//     answers pile up behind it.
 
 import (
 	"bytes"
 	"context"
 	"errors"
 	"fmt"
+	"hash/fnv"
 	"sort"
 	"strings"
 	"time"
 
 	dht "github.com/libp2p/go-libp2p-kad-dht"
+	"github.com/libp2p/go-libp2p-kad-dht/amino"
 	pb "github.com/libp2p/go-libp2p-kad-dht/pb"
 	recpb "github.com/libp2p/go-libp2p-record/pb"
 	"github.com/libp2p/go-libp2p/core/peer"
@@ -39,11 +70,12 @@ import (
 )
 
 func init() {
-	sim.Register(&sim.Scenario{Prop: "C04", Name: "value-standard", Weight: 4, Run: func(s *sim.Sim) { c04RunValue(s, "standard") },
+	sim.Register(&sim.Scenario{Prop: "C04", Name: "value-standard", Weight: 4, Run: func(s *sim.Sim) { c04RunValue(s, "standard", false) },
 		Real: []string{"IpfsDHT.GetValue/SearchValue/searchValueQuorum/getValues/processValues (routing.go)", "ProtocolMessenger.GetValue (record key check)", "query.go lookup + follow-up", "records.ValueStore (local record)", "go-libp2p-record NamespacedValidator dispatch"},
 		Stub: []string{"host.Host/network (simhost)", "pb.MessageSender (level A, simnet.Sender)", "remote peers (scripted responders)", "record validator (harness rank validator, time-aware)", "datastore (simds, not parking)"},
 		Faults: []string{"fault_rec_invalid", "fault_rec_miskeyed", "fault_rec_empty", "fault_rpc_error", "fault_dial_fail", "fault_cancel", "time_advance",
-			"probe_found", "probe_notfound", "probe_stream_multi", "probe_search_ended_early", "probe_local_valid", "probe_local_expired", "probe_local_expired_midsearch", "probe_peer_serves_local_bytes_valid", "probe_peer_serves_local_bytes_expired_at_start", "probe_peer_serves_local_bytes_expired_midsearch", "probe_value_expired_midsearch", "probe_bestknown_checked"},
+			"probe_found", "probe_notfound", "probe_stream_multi", "probe_search_ended_early", "probe_local_valid", "probe_local_expired", "probe_local_expired_midsearch", "probe_peer_serves_local_bytes_valid", "probe_peer_serves_local_bytes_expired_at_start", "probe_peer_serves_local_bytes_expired_midsearch", "probe_value_expired_midsearch", "probe_bestknown_checked",
+			"probe_opt_offline", "probe_opt_expired", "probe_opt_offline_local_not_valid", "probe_local_never_valid", "probe_local_outlived_max_age", "probe_stamp_valid_value_held_past_requesters_max_age", "probe_stamp_valid_value_from_the_future", "probe_stamp_valid_value_unparsable"},
 	})
 }
 
@@ -107,7 +139,54 @@ type c04Cfg struct {
 	CancelAt    int
 	Profile     int
 	Ranks       int
+	// routing options next to Quorum
+	Offline, Expired bool
+	// LocalPlant (Local == 5): what is written straight to the datastore in
+	// place of the stored record (c04Plant*)
+	LocalPlant int
+	// MaxAge: index into c04MaxAges (the requester's MaxRecordAge option)
+	MaxAge int
+	// Stamps: time-received stamps on served records: 0 none, 1 every kind,
+	// 2 mostly "older than the requester's maximum age"
+	Stamps    int
+	StampSeed int
+	// Lazy: the SearchValue consumer reads only when the scheduler says so
+	Lazy bool
 }
+
+// c04MaxAge is one choice of the requester's MaxRecordAge option.
+type c04MaxAge struct {
+	Set bool
+	D   time.Duration
+}
+
+// c04MaxAges: index 0 is the benign choice (far beyond any run).
+var c04MaxAges = []c04MaxAge{{true, 100000 * time.Hour}, {false, 0}, {true, 0}, {true, 30 * time.Minute}, {true, 6 * time.Hour}}
+
+// bound is the age from which on a node configured with this choice may treat
+// a record it holds as gone (0: never). For "unset" it is the library's
+// documented default (amino.DefaultMaxRecordAge); a client that applies no
+// default (the accelerated one) never ages records out, which the oracle
+// tolerates as well: beyond the bound the local record is unconstrained.
+func (m c04MaxAge) bound() time.Duration {
+	switch {
+	case !m.Set:
+		return amino.DefaultMaxRecordAge
+	case m.D <= 0:
+		return 0
+	}
+	return m.D
+}
+
+// what a planted local record (Local == 5) carries
+const (
+	c04PlantGarbage  = iota // correctly keyed record, value is not a rank value at all
+	c04PlantOtherKey        // correctly keyed record, value that belongs to another key
+	c04PlantBadRank         // correctly keyed record, malformed rank field
+	c04PlantEmpty           // correctly keyed record without a value
+	c04PlantMisKeyed        // record filed under another key (value fine for the requested key)
+	c04PlantKinds
+)
 
 // c04Supply is one reply carrying a record that the simulator delivered.
 type c04Supply struct {
@@ -118,6 +197,9 @@ type c04Supply struct {
 	KeyOK      bool // the record is filed under the requested key
 	ValidNow   bool // KeyOK and the validator accepts the value at the delivery instant
 	OpenBefore bool // the output was still open at the quiescent point before this delivery
+	// Backlog (lazy consumers): the caller was between two receives at that
+	// quiescent point, so the record joined whatever was already queued for it
+	Backlog bool
 }
 
 // c04Emit is one value that came out of the client.
@@ -134,7 +216,11 @@ type c04Sut struct {
 	pk     routing.PubKeyFetcher
 	seed   func(peers []*simnet.Peer) // make these peers the starting points of lookups
 	stored func(val []byte) bool      // is a record with this value in local storage
-	close  func()
+	// plant rewrites, straight in the datastore(s), the stored record carrying
+	// old (it never goes through the client: "a record that was written by
+	// somebody else / an older version / under another configuration")
+	plant func(key string, old []byte, mutate func(*recpb.Record)) bool
+	close func()
 }
 
 type c04World struct {
@@ -151,12 +237,15 @@ type c04World struct {
 	// validator's)
 	sel  func(key string, vals [][]byte) (int, error)
 	hist *c04Hist // multi-search histories only (c04_history.go)
+	lazy *c04Lazy // lazy-consumer scenarios only (c04_lazy.go)
 	resp map[peer.ID]*c04Resp
 	side map[peer.ID]string // dual: "wan" / "lan"
 
 	localVal          []byte
 	localStored       bool
 	localValidAtStart bool
+	localPlanted      bool          // the stored record was rewritten in the datastore: never valid for the key
+	localStoredAt     time.Duration // when the client stored it (its age counts from here)
 
 	op         *Op
 	startAt    time.Duration
@@ -168,8 +257,8 @@ type c04World struct {
 	ops        opSet
 }
 
-func c04GenCfg(s *sim.Sim, variant string) c04Cfg {
-	c := c04Cfg{Variant: variant}
+func c04GenCfg(s *sim.Sim, variant string, lazy bool) c04Cfg {
+	c := c04Cfg{Variant: variant, Lazy: lazy}
 	switch s.Draw("size-class", 3) {
 	case 0:
 		c.N = s.Range("n", 1, 5)
@@ -184,6 +273,8 @@ func c04GenCfg(s *sim.Sim, variant string) c04Cfg {
 	// -1: no Quorum option; small quorums (early stop) are deliberately frequent
 	c.Quorum = []int{-1, 0, 1, 2, 3, 1, 2, 4, 6}[s.Draw("quorum", 9)]
 	c.Search = s.Chance("search", 1, 2)
+	c.Offline = s.Chance("opt-offline", 1, 4)
+	c.Expired = s.Chance("opt-expired", 1, 6)
 	if variant == "dual" && !c.Search && c.Quorum > 0 {
 		// Determinism (HARNESS pitfall 3): when a quorum is reached the value
 		// goroutine closes the stop channel while the lookup loop polls it
@@ -199,24 +290,65 @@ func c04GenCfg(s *sim.Sim, variant string) c04Cfg {
 	c.Other = fmt.Sprintf("/r/other-%d", n)
 	c.Profile = s.Draw("profile", 3)
 	c.Ranks = s.Range("ranks", 1, 8)
-	c.Local = s.Draw("local", 5)
+	c.Local = s.Draw("local", 6)
 	if c.Local != 0 {
 		c.LocalRank = s.Draw("local-rank", 2*c.Ranks)
 		c.LocalCopies = s.Draw("local-copies", 4)
 	}
+	if c.Local == 5 {
+		c.LocalPlant = s.Draw("local-plant", c04PlantKinds)
+	}
 	if s.Chance("cancel", 1, 8) {
 		c.CancelAt = s.Range("cancel-at", 1, 30)
+	}
+	c.MaxAge = s.Draw("max-record-age", len(c04MaxAges))
+	if c.Stamps = s.Draw("stamps", 3); c.Stamps != 0 {
+		c.StampSeed = s.Draw("stamp-seed", 1<<16)
+	}
+	if lazy {
+		// see c04_lazy.go for what is left out of the lazy scenarios and why
+		c.Search, c.CancelAt = true, 0
+		if c.Quorum > 0 {
+			c.Quorum = 0
+		}
+		if c.Local == 4 {
+			c.Local = 1
+		}
+		c.Profile = []int{2, 1, 2}[c.Profile]
+		// few responders, many ranks: the pipeline behind the result channel
+		// holds at most three records, and which of them is the best one matters
+		// most when it is not also held by a crowd of other responders
+		if c.N > 10 {
+			c.N = 3 + c.N%8
+		}
+		c.Ranks = 4 + 2*c.Ranks
 	}
 	return c
 }
 
 // c04Opts are the DHT options every variant shares: the rank validator under
-// namespace "r" (next to the default /pk one), a record age far beyond the run.
-func c04Opts(rv rankValidator) []dht.Option {
-	return []dht.Option{
-		dht.NamespacedValidator("r", rv),
-		dht.MaxRecordAge(100000 * time.Hour),
+// namespace "r" (next to the default /pk one) and the drawn MaxRecordAge.
+func c04Opts(rv rankValidator, maxAge int) []dht.Option {
+	opts := []dht.Option{dht.NamespacedValidator("r", rv)}
+	if m := c04MaxAges[maxAge]; m.Set {
+		opts = append(opts, dht.MaxRecordAge(m.D))
 	}
+	return opts
+}
+
+// c04RoutingOpts are the routing options of one call.
+func (c c04Cfg) routingOpts() []routing.Option {
+	var opts []routing.Option
+	if c.Quorum >= 0 {
+		opts = append(opts, dht.Quorum(c.Quorum))
+	}
+	if c.Offline {
+		opts = append(opts, routing.Offline)
+	}
+	if c.Expired {
+		opts = append(opts, routing.Expired)
+	}
+	return opts
 }
 
 // c04StoredIn reports whether ds holds a record carrying exactly val (scan of
@@ -231,9 +363,36 @@ func c04StoredIn(d *simds.DS, val []byte) bool {
 	return false
 }
 
+// c04PlantIn rewrites the record(s) in ds that are filed under key and carry
+// exactly old (found by scanning the content, the datastore key layout is not
+// the harness' business; the receive stamp the client wrote stays as it is).
+func c04PlantIn(d *simds.DS, key string, old []byte, mutate func(*recpb.Record)) bool {
+	snap := d.Snapshot()
+	keys := make([]string, 0, len(snap))
+	for k := range snap {
+		keys = append(keys, k)
+	}
+	sort.Strings(keys)
+	done := false
+	for _, k := range keys {
+		rec := new(recpb.Record)
+		if proto.Unmarshal(snap[k], rec) != nil || string(rec.GetKey()) != key || !bytes.Equal(rec.GetValue(), old) {
+			continue
+		}
+		mutate(rec)
+		raw, err := proto.Marshal(rec)
+		if err != nil {
+			continue
+		}
+		d.Poke(k, raw)
+		done = true
+	}
+	return done
+}
+
 func c04BuildStandard(w *c04World) error {
 	d := simds.New(w.s, "ds")
-	h, err := newH1(w.s, w.u, w.cfg.K, w.cfg.Alpha, w.cfg.Beta, append(c04Opts(w.val), dht.Datastore(d))...)
+	h, err := newH1(w.s, w.u, w.cfg.K, w.cfg.Alpha, w.cfg.Beta, append(c04Opts(w.val, w.cfg.MaxAge), dht.Datastore(d))...)
 	if err != nil {
 		return err
 	}
@@ -243,6 +402,7 @@ func c04BuildStandard(w *c04World) error {
 		pk:     h.DHT,
 		seed:   func(peers []*simnet.Peer) { h.Seed(peers) },
 		stored: func(val []byte) bool { return c04StoredIn(d, val) },
+		plant:  func(key string, old []byte, m func(*recpb.Record)) bool { return c04PlantIn(d, key, old, m) },
 		close: func() {
 			_ = h.DHT.Close()
 			_ = h.Host.Close()
@@ -291,7 +451,7 @@ func (w *c04World) genResponders(peers []*simnet.Peer, knowable []*simnet.Peer) 
 			switch {
 			case len(valids) > 0 && rng.Intn(4) == 0: // byte-identical to another responder's value
 				r.Val = valids[rng.Intn(len(valids))].Val
-			case rng.Intn(6) == 0: // expires while the search may still be running
+			case !c.Lazy && rng.Intn(6) == 0: // expires while the search may still be running
 				r.Sub = 1
 				r.Val = rankValue(rng.Intn(c.Ranks), t0.Add(time.Duration(1+rng.Intn(4000))*time.Millisecond+time.Duration(i)), c.Key)
 			default:
@@ -356,7 +516,55 @@ func (w *c04World) replyFor(x *simnet.Peer, r *c04Resp, req *pb.Message) *pb.Mes
 			resp.Record.Value = []byte{}
 		}
 	}
+	if resp.Record != nil {
+		_, resp.Record.TimeReceived = w.stampOf(x.ID)
+	}
 	return resp
+}
+
+// time-received stamps a responder puts on the record it serves
+const (
+	c04StampNone       = iota
+	c04StampRecent     // received a moment ago
+	c04StampOld        // held for longer than the REQUESTER's maximum record age
+	c04StampFuture     // far in the future (clock skew)
+	c04StampUnparsable // not a time at all
+)
+
+// stampOf is the time-received stamp responder p puts on its record now: the
+// kind is fixed per responder and run (a hash of the drawn stamp seed and the
+// peer ID), the instant is relative to the responder's "now". It is the
+// sender's private bookkeeping: nothing in the property lets it decide whether
+// a supplied value counts.
+func (w *c04World) stampOf(p peer.ID) (kind int, stamp string) {
+	c := w.cfg
+	if c.Stamps == 0 {
+		return c04StampNone, ""
+	}
+	h := fnv.New64a()
+	fmt.Fprintf(h, "%d|%s", c.StampSeed, string(p))
+	x := h.Sum64()
+	kind = int(x % 5)
+	if c.Stamps == 2 && (x>>8)%2 == 0 {
+		kind = c04StampOld
+	}
+	x >>= 16
+	now := time.Now().UTC()
+	switch kind {
+	case c04StampRecent:
+		stamp = now.Add(-time.Duration(x%3600) * time.Second).Format(time.RFC3339Nano)
+	case c04StampOld:
+		age := c04MaxAges[c.MaxAge].bound()
+		if age == 0 {
+			age = 20000 * time.Hour
+		}
+		stamp = now.Add(-age - time.Duration(1+x%100000)*time.Second).Format(time.RFC3339Nano)
+	case c04StampFuture:
+		stamp = now.Add(time.Duration(1+x%100000) * time.Hour).Format(time.RFC3339Nano)
+	case c04StampUnparsable:
+		stamp = []string{"yesterday", "2001-02-30T25:61:00Z", "0000-00-00T00:00:00Z", "1234567890"}[x%4]
+	}
+	return kind, stamp
 }
 
 // outputOpen: the client has not finished handing out values (GetValue has not
@@ -389,7 +597,12 @@ func (w *c04World) actions() []sim.Action {
 			}})
 		case "rpc":
 			rpc := p.Data.(*simnet.RPC)
+			if w.lazy != nil && !w.lazy.room(w, rpc) {
+				continue // enabled again once the consumer has read
+			}
 			acts = append(acts, sim.Action{ID: p.ID, Do: func() { w.answer(p, rpc) }})
+		case "consume":
+			acts = append(acts, w.lazy.actions(w, p)...)
 		}
 	}
 	return acts
@@ -421,6 +634,7 @@ func (w *c04World) answer(p *sim.Parked, rpc *simnet.RPC) {
 	resp := w.replyFor(x, r, rpc.Req)
 	if rec := resp.GetRecord(); rec != nil && string(rpc.Req.GetKey()) == w.cfg.Key {
 		sup := c04Supply{Step: s.Steps, Peer: rpc.To, Kind: r.Kind, Val: r.Val, OpenBefore: w.outputOpen() && w.cancelStep == 0}
+		sup.Backlog = w.lazy != nil && !w.lazy.receiving.Load()
 		sup.KeyOK = string(rec.GetKey()) == w.cfg.Key
 		sup.ValidNow = sup.KeyOK && len(rec.GetValue()) > 0 && w.validate(w.cfg.Key, rec.GetValue()) == nil
 		w.supplies = append(w.supplies, sup)
@@ -449,6 +663,19 @@ func (w *c04World) answer(p *sim.Parked, rpc *simnet.RPC) {
 				s.Count("probe_value_expired_midsearch")
 			}
 		}
+		if sup.ValidNow {
+			switch k, _ := w.stampOf(rpc.To); k {
+			case c04StampOld:
+				s.Count("probe_stamp_valid_value_held_past_requesters_max_age")
+			case c04StampFuture:
+				s.Count("probe_stamp_valid_value_from_the_future")
+			case c04StampUnparsable:
+				s.Count("probe_stamp_valid_value_unparsable")
+			}
+		}
+	}
+	if rec := resp.GetRecord(); w.lazy != nil && rec != nil && string(rec.GetKey()) == w.cfg.Key && len(rec.GetValue()) > 0 && w.validate(w.cfg.Key, rec.GetValue()) == nil {
+		w.lazy.delivered(w)
 	}
 	s.Release(p, simnet.Reply{Msg: resp})
 }
@@ -473,9 +700,14 @@ func (w *c04World) putLocal() {
 	case 3: // time passes, the record stays valid
 		exp = time.Now().Add(2000 * time.Hour)
 		wait = time.Duration(1+s.Draw("local-wait-ms", 600000)) * time.Millisecond
-	default: // valid when the search starts, expires a few virtual seconds into it
+	case 4: // valid when the search starts, expires a few virtual seconds into it
 		wait = time.Duration(s.Draw("local-wait-ms", 600000)) * time.Millisecond
 		exp = time.Now().Add(wait + time.Duration(1+s.Draw("local-left-ms", 4000))*time.Millisecond)
+	default: // 5: a record that never was valid, written straight to the datastore (below)
+		exp = time.Now().Add(2000 * time.Hour)
+		if s.Chance("local-wait", 1, 2) {
+			wait = time.Duration(1+s.Draw("local-wait-ms", 600000)) * time.Millisecond
+		}
 	}
 	w.localVal = rankValue(c.LocalRank, exp, c.Key)
 	val := w.localVal
@@ -493,10 +725,39 @@ func (w *c04World) putLocal() {
 		s.Quiesce()
 	}
 	w.localStored = op.Done && w.sut.stored(val)
+	w.localStoredAt = s.Now()
+	if c.Local == 5 && w.localStored {
+		planted := c04PlantValue(c.LocalPlant, val, c.LocalRank, exp, c.Key, c.Other)
+		w.localStored = w.sut.plant(c.Key, val, func(rec *recpb.Record) {
+			if c.LocalPlant == c04PlantMisKeyed {
+				rec.Key = []byte(c.Other)
+			}
+			rec.Value = planted
+		})
+		w.localVal, w.localPlanted = planted, true
+		if w.localVal == nil {
+			w.localVal = []byte{}
+		}
+	}
 	if wait > 0 {
 		s.Sleep(wait)
 		s.Count("time_advance")
 	}
+}
+
+// c04PlantValue is the value a planted local record carries (nil: none).
+func c04PlantValue(kind int, orig []byte, rank int, exp time.Time, key, other string) []byte {
+	switch kind {
+	case c04PlantGarbage:
+		return []byte("garbage-in-local-storage")
+	case c04PlantOtherKey:
+		return rankValue(rank, exp, other)
+	case c04PlantBadRank:
+		return []byte(fmt.Sprintf("-%d|%d|%s", 1+rank, exp.UnixNano(), key))
+	case c04PlantEmpty:
+		return nil
+	}
+	return orig // c04PlantMisKeyed: the record is filed under another key
 }
 
 // observe traces the values that came out since the last quiescent point.
@@ -507,11 +768,38 @@ func (w *c04World) observe() {
 	}
 }
 
+// consume receives what SearchValue streams until the channel is closed (on the
+// client goroutine). A lazy consumer (c04_lazy.go) asks the scheduler before
+// every receive.
+func (w *c04World) consume(ch <-chan []byte, key string, validate func(string, []byte) error) {
+	s := w.s
+	for {
+		if w.lazy != nil {
+			s.Park("consume", "out", nil, nil)
+			w.lazy.receiving.Store(true)
+		}
+		v, ok := <-ch
+		if w.lazy != nil {
+			w.lazy.receiving.Store(false)
+		}
+		if !ok {
+			return
+		}
+		w.emits = append(w.emits, c04Emit{Val: append([]byte(nil), v...), Step: s.Steps, At: s.Now(), VErr: validate(key, v)})
+		if w.lazy != nil {
+			w.lazy.received.Add(1)
+		}
+	}
+}
+
 // c04RunValue is the generic GetValue/SearchValue scenario.
-func c04RunValue(s *sim.Sim, variant string) {
+func c04RunValue(s *sim.Sim, variant string, lazy bool) {
 	s.MaxSteps = 500
-	c := c04GenCfg(s, variant)
+	c := c04GenCfg(s, variant, lazy)
 	w := &c04World{s: s, cfg: c, val: rankValidator{TimeAware: true}, resp: map[peer.ID]*c04Resp{}, side: map[peer.ID]string{}}
+	if lazy {
+		w.lazy = &c04Lazy{}
+	}
 	w.validate = w.val.Validate
 	w.u = simnet.NewUniverse(uint64(s.Draw("universe", 1<<16)), c.N)
 	var err error
@@ -526,8 +814,8 @@ func c04RunValue(s *sim.Sim, variant string) {
 	if err != nil {
 		panic(err)
 	}
-	s.Summary["cfg"] = fmt.Sprintf("%s N=%d K=%d alpha=%d beta=%d quorum=%d search=%v local=%d profile=%d ranks=%d cancelAt=%d",
-		variant, c.N, c.K, c.Alpha, c.Beta, c.Quorum, c.Search, c.Local, c.Profile, c.Ranks, c.CancelAt)
+	s.Summary["cfg"] = fmt.Sprintf("%s N=%d K=%d alpha=%d beta=%d quorum=%d offline=%v expired=%v search=%v lazy=%v local=%d/%d profile=%d ranks=%d cancelAt=%d maxage=%d stamps=%d",
+		variant, c.N, c.K, c.Alpha, c.Beta, c.Quorum, c.Offline, c.Expired, c.Search, c.Lazy, c.Local, c.LocalPlant, c.Profile, c.Ranks, c.CancelAt, c.MaxAge, c.Stamps)
 
 	// 1. local record (nothing to talk to yet), time passes
 	w.putLocal()
@@ -555,17 +843,23 @@ func c04RunValue(s *sim.Sim, variant string) {
 	// 3. the operation under test
 	ctx, cancel := context.WithCancel(context.Background())
 	defer cancel()
-	var opts []routing.Option
-	if c.Quorum >= 0 {
-		opts = append(opts, dht.Quorum(c.Quorum))
+	opts := c.routingOpts()
+	if c.Offline {
+		s.Count("probe_opt_offline")
+	}
+	if c.Expired {
+		s.Count("probe_opt_expired")
 	}
 	name := "GetValue"
 	if c.Search {
 		name = "SearchValue"
 	}
+	if w.lazy != nil && w.localStored && !w.localPlanted && w.val.Validate(c.Key, w.localVal) == nil {
+		w.lazy.pipe++ // the search hands the local record to its value loop first
+	}
 	w.op = w.ops.Go(s, name, func() (any, error) {
 		w.startAt = s.Now()
-		w.localValidAtStart = w.localStored && w.val.Validate(c.Key, w.localVal) == nil
+		w.localValidAtStart = w.localStored && !w.localPlanted && w.val.Validate(c.Key, w.localVal) == nil
 		if !c.Search {
 			v, err := w.sut.client.GetValue(ctx, c.Key, opts...)
 			return v, err
@@ -574,9 +868,7 @@ func c04RunValue(s *sim.Sim, variant string) {
 		if err != nil {
 			return nil, err
 		}
-		for v := range ch {
-			w.emits = append(w.emits, c04Emit{Val: append([]byte(nil), v...), Step: s.Steps, At: s.Now(), VErr: w.val.Validate(c.Key, v)})
-		}
+		w.consume(ch, c.Key, w.val.Validate)
 		return nil, nil
 	})
 	s.Quiesce()
@@ -599,6 +891,12 @@ func c04RunValue(s *sim.Sim, variant string) {
 			s.Sleep(time.Duration(1+s.Draw("tick-ms", 2000)) * time.Millisecond)
 			s.Count("time_advance")
 			if w.op.Done {
+				continue
+			}
+		}
+		if w.lazy != nil {
+			w.lazy.sync(w)
+			if w.lazy.pauseWhenFull(w) {
 				continue
 			}
 		}
@@ -646,11 +944,11 @@ func c04RunValue(s *sim.Sim, variant string) {
 // still blocked. Not part of C04 (that is C03/C14 territory), so it is a probe,
 // not a rule: it documents that after an early (quorum) stop the lookup's
 // request goroutines can stay blocked on the value channel nobody reads any
-// more until the caller's context ends. (Since the repository's fix "value-search
-// quorum hand-over" the standard client's workers leave through the stop
-// channel and the accelerated client's through its per-operation time-out, so
-// the counter is expected to stay at zero and is no longer listed among the
-// probes that must fire; it is kept as a canary.)
+// more until the caller's context ends. (Since the repository's fixes
+// "value-search quorum hand-over" and "fullrt: an approved value is no longer
+// dropped when the consumer is slow" the workers of both clients leave through
+// the stop channel, so the counter is expected to stay at zero and is no longer
+// listed among the probes that must fire; it is kept as a canary.)
 func (w *c04World) afterSearch() {
 	s := w.s
 	for i := 0; i < 80; i++ {
@@ -706,6 +1004,16 @@ func (w *c04World) provenance(val []byte, upto int) (rule, detail string) {
 		if w.localValidAtStart {
 			return "", ""
 		}
+		if w.localPlanted {
+			also := ""
+			if invalid != nil {
+				also = fmt.Sprintf(" (%s supplied the same bytes, which the validator rejected there too, at step %d)", w.u.Name(invalid.Peer), invalid.Step)
+			} else if misKeyed != nil {
+				also = fmt.Sprintf(" (%s supplied the same bytes in a record filed under another key)", w.u.Name(misKeyed.Peer))
+			}
+			return "yield-invalid-local", fmt.Sprintf("the %s client yielded %s, the content of a record in its local storage that is not a valid record for the requested key %q (%s; it was written straight to the datastore and never passed the validator): the local record enters the search without validation%s",
+				w.cfg.Variant, c04Short(val), w.cfg.Key, c04PlantName(w.cfg.LocalPlant), also)
+		}
 		if invalid != nil {
 			// the same bytes also came from a peer, and the validator rejected them
 			// there too: nobody supplied them validly, whichever way they got in
@@ -742,6 +1050,10 @@ func (w *c04World) selectFn() func(key string, vals [][]byte) (int, error) {
 	return w.val.Select
 }
 
+func c04PlantName(kind int) string {
+	return [...]string{"its value is not a value of this validator at all", "its value belongs to another key", "its value is malformed", "it has no value", "it is filed under another key"}[kind]
+}
+
 func c04LocalSite(variant string) string {
 	switch variant {
 	case "fullrt":
@@ -769,7 +1081,7 @@ func (w *c04World) check() {
 	for i, e := range outs {
 		if c.Search && e.VErr != nil {
 			// the harness validator, at the very instant the value was received
-			if rule, detail := w.provenance(e.Val, e.Step); rule == "yield-expired-local" {
+			if rule, detail := w.provenance(e.Val, e.Step); rule == "yield-expired-local" || rule == "yield-invalid-local" {
 				s.Violate(rule, "%s", detail)
 			} else if rule == "yield-invalid" {
 				s.Violate(rule, "SearchValue value #%d is rejected by the validator at the instant it was received (t=%v: %v): %s", i, e.At, e.VErr, detail)
@@ -801,12 +1113,23 @@ func (w *c04World) check() {
 	if len(outs) > 0 {
 		final = outs[len(outs)-1].Val
 	}
-	anyValid := w.localValidAtStart
+	// A local record that may have outlived the requester's maximum record age
+	// by the time the operation ended is no longer "supplied by local storage"
+	// for sure (nodes hold a record for that long, counted from when they stored
+	// it): it is then neither demanded (best-known) nor missed (not-found).
+	localMaybeGone := false
+	if b := c04MaxAges[c.MaxAge].bound(); w.localValidAtStart && b > 0 && w.op.DoneAt-w.localStoredAt >= b {
+		localMaybeGone = true
+		s.Count("probe_local_outlived_max_age")
+	}
+	anyValid := w.localValidAtStart && !localMaybeGone
 	for _, sp := range w.supplies {
 		anyValid = anyValid || sp.ValidNow
 	}
 	if w.localStored {
-		if w.localValidAtStart {
+		if w.localPlanted {
+			s.Count("probe_local_never_valid")
+		} else if w.localValidAtStart {
 			s.Count("probe_local_valid")
 			if w.validate(c.Key, w.localVal) != nil {
 				s.Count("probe_local_expired_midsearch")
@@ -832,35 +1155,54 @@ func (w *c04World) check() {
 		// observed there.
 		if c.Variant != "dual" {
 			type cand struct {
-				val  []byte
-				from string
+				val     []byte
+				from    string
+				backlog bool
 			}
 			var must []cand
-			if w.localValidAtStart {
-				must = append(must, cand{w.localVal, "local storage"})
+			if w.localValidAtStart && !localMaybeGone {
+				must = append(must, cand{w.localVal, "local storage", false})
 			}
 			for _, sp := range w.supplies {
 				if sp.ValidNow && sp.OpenBefore {
-					must = append(must, cand{sp.Val, fmt.Sprintf("%s (step %d)", w.u.Name(sp.Peer), sp.Step)})
+					must = append(must, cand{sp.Val, fmt.Sprintf("%s (step %d)", w.u.Name(sp.Peer), sp.Step), sp.Backlog})
 				}
 			}
 			for _, m := range must {
 				s.Count("probe_bestknown_checked")
-				if final == nil {
+				if m.backlog {
+					s.Count("probe_bestknown_checked_backlog")
+				}
+				var sel int
+				var serr error
+				if final != nil {
+					sel, serr = w.selectFn()(c.Key, [][]byte{final, m.val})
+					if serr == nil && sel == 0 {
+						continue
+					}
+				}
+				fin := "no value at all"
+				if final != nil {
+					fin = "the final value " + c04Short(final)
+				}
+				switch {
+				case m.backlog:
+					// same clause as best-known / valid-value-lost; a rule id of its own
+					// because the circumstances are (see c04_lazy.go)
+					s.Violate("best-known-backlog", "the %s client was handed the valid value %s by %s while the caller of SearchValue was between two receives; the search was still running, the request was outstanding with a live context, no early stop was asked for - and the value never reached the caller: the stream ended with %s (err=%v), ranked worse. A value the client received and approved got lost on the way to a slow caller",
+						c.Variant, c04Short(m.val), m.from, fin, err)
+				case final == nil:
 					s.Violate("valid-value-lost", "%s ended with no value (err=%v) although %s supplied the valid value %s while the search was running", w.op.Name, err, m.from, c04Short(m.val))
-					break
-				}
-				sel, serr := w.selectFn()(c.Key, [][]byte{final, m.val})
-				if serr != nil || sel != 0 {
+				default:
 					s.Violate("best-known", "final value %s is ranked worse than %s supplied by %s while the search was running", c04Short(final), c04Short(m.val), m.from)
-					break
 				}
+				break
 			}
 		}
 		// (4) nothing valid supplied anywhere => not-found, never a value
 		// ("never a value" needs no rule of its own: with nothing valid supplied
 		// any yielded value already failed the provenance rules of (1))
-		if !anyValid {
+		if !anyValid && !localMaybeGone {
 			s.Count("probe_notfound")
 			if !c.Search && final == nil && !errors.Is(err, routing.ErrNotFound) {
 				s.Violate("notfound-error", "no valid value was supplied by anyone, GetValue must fail with routing.ErrNotFound, got err=%v", err)
@@ -875,6 +1217,12 @@ func (w *c04World) check() {
 			}
 		} else if final != nil {
 			s.Count("probe_found")
+		}
+		if anyValid && c.Offline {
+			s.Count("probe_opt_offline_with_valid_supply")
+		}
+		if c.Offline && w.localStored && !w.localValidAtStart {
+			s.Count("probe_opt_offline_local_not_valid")
 		}
 	}
 
